@@ -129,7 +129,7 @@ def v3 : Ver := [51]
 
 /-- `a 1 → c`, `a 3` has no dependencies -/
 def dbKeep : Db :=
-  { decls := [⟨nA, v1, [1], [(.always, .dep nC false false none none)]⟩, ⟨nA, v3, [2], []⟩, ⟨nC, v1, [3], []⟩],
+  { decls := [⟨nA, v1, [1], [(.always, .dep nC false false none none [])]⟩, ⟨nA, v3, [2], []⟩, ⟨nC, v1, [3], []⟩],
     tags := [(tagCurrent, nA, v1), (tagCurrent, nC, v1)] }
 
 def envOf : Res → Option Setup.Env
@@ -143,6 +143,33 @@ theorem C04_keep_drop_witness :
       e1.rec? nC = some v1 ∧ e2.rec? nC = none := by
   refine ⟨⟨[(nC, v1), (nA, v1)], [(nC, .own (nC, v1) []), (nA, .own (nA, v1) [])], [], []⟩,
           ⟨[(nA, v3)], [(nA, .own (nA, v3) [])], [], []⟩, ?_, ?_, ?_, ?_⟩ <;> decide +kernel
+
+/-! ## the narrower reading of "reachable" fails (for the record; not claimed) -/
+
+def nP : Name := [112]
+def nX : Name := [120]
+def nZ : Name := [122]
+def v2 : Ver := [50]
+
+/-- `p 1 → z`, `p 2` has no dependencies, the bystander `x 1 → z` -/
+def dbNarrow : Db :=
+  { decls := [⟨nP, v1, [1], [(.always, .dep nZ false false none none [])]⟩, ⟨nP, v2, [2], []⟩,
+              ⟨nX, v1, [3], [(.always, .dep nZ false false none none [])]⟩, ⟨nZ, v1, [4], []⟩],
+    tags := [(tagCurrent, nP, v1), (tagCurrent, nX, v1), (tagCurrent, nZ, v1)] }
+
+/-- Under the reading "reachable through the tables of the newly selected versions only", `z` is not reachable from
+the request `setup p 2` (`p 2` has no dependencies) — yet it loses its record, although the bystander `x` needs it:
+replacing `p 1` unwinds `p 1`'s dependencies.  `C04_frame` is therefore stated for reachability through the tables of
+the selected *and the replaced* versions. -/
+theorem C04_narrow_frame_fails :
+    ∃ e1 e2 e3, envOf (runSetup dbNarrow 10 ⟨nX, none, false, none, false, []⟩ Setup.Env.empty) = some e1 ∧
+      envOf (runSetup dbNarrow 10 ⟨nP, none, false, none, false, []⟩ e1) = some e2 ∧
+      envOf (runSetup dbNarrow 10 ⟨nP, some (.explicit v2), false, none, false, []⟩ e2) = some e3 ∧
+      e2.rec? nZ = some v1 ∧ e3.rec? nZ = none ∧ e3.rec? nX = some v1 := by
+  refine ⟨⟨[(nZ, v1), (nX, v1)], [(nZ, .own (nZ, v1) []), (nX, .own (nX, v1) [])], [], []⟩,
+          ⟨[(nP, v1), (nZ, v1), (nX, v1)], [(nP, .own (nP, v1) []), (nZ, .own (nZ, v1) []), (nX, .own (nX, v1) [])], [], []⟩,
+          ⟨[(nP, v2), (nX, v1)], [(nP, .own (nP, v2) []), (nX, .own (nX, v1) [])], [], []⟩, ?_, ?_, ?_, ?_, ?_, ?_⟩ <;>
+    decide +kernel
 
 /-- the hypotheses of `C04_keep_partial` are satisfiable with something to keep: `c 1` is set up, `a` is not -/
 example : AllDeclared dbKeep ⟨[(nC, v1)], [(nC, .own (nC, v1) [])], [], []⟩ ∧
